@@ -157,6 +157,21 @@ fn main_check(ctx: &Ctx) -> Outcome {
     let reps = class_reps();
     let mut all_fix = true;
 
+    // (0) the lock()ed variants of the strip stream over the real stdio (single-threaded, first)
+    {
+        let (n, bad) = vchecks::stdio_sys::lock_chunking_violations();
+        for (case, message) in bad.into_iter().take(20) {
+            out.findings.push(Finding {
+                system: "StripStream/AutoStream::never over real stdio: write_all; lock(); write_all".into(),
+                clause: "chunking-differs".into(),
+                case: vec![case],
+                message,
+                replay: json!({"kind":"lock"}),
+            });
+        }
+        out.push_part(json!({"system":"write_all; lock(); write_all over the real stdout/stderr redirected to files, every cut position","cases":n}));
+    }
+
     // (a) chunk-token BFS to fixpoint
     let n = if quick { 2 } else { 3 };
     let sys = StripBytesSys { tokens: chunks_upto(&alpha, n), label: format!("StripBytes::strip_next/chunks<={n}") };
@@ -384,6 +399,10 @@ fn replay(v: &serde_json::Value) -> Result<(), String> {
             }
             Ok(())
         }
+        "lock" => match vchecks::stdio_sys::lock_chunking_violations().1.first() {
+            Some((c, m)) => Err(format!("{c}: {m}")),
+            None => Ok(()),
+        },
         k => Err(format!("unknown replay kind {k}")),
     }
 }
